@@ -77,8 +77,8 @@ def oracle(ctx, script, real):
             fn = op[1]
             expect = []   # (dst, kind) in emission order
             for i in (0, 1):
-                due = [m for m in st[i]["q"] if m[0] == fn]
-                st[i]["q"] = [m for m in st[i]["q"] if m[0] > fn]
+                due = [m for m in st[i]["q"] if (m[0] - fn) % W.H == 0]
+                st[i]["q"] = [m for m in st[i]["q"] if 0 < (m[0] - fn) % W.H < W.H // 2]
                 j = 1 - i
                 for m in due:
                     if st[j]["muted"] or st[i]["muted"]:
